@@ -13,7 +13,7 @@ import (
 )
 
 // stepLegacy exercises one of the controls kept from the JIT era and records its raw result.
-func (c *stepCtx) stepLegacy(st map[string]interface{}) string {
+func (c *stepCtx) stepLegacy(k int, st map[string]interface{}) string {
 	call := str(st, "call", "")
 	arg := num(st, "arg", 0)
 	if a, err := strconv.ParseInt(str(st, "argstr", ""), 10, 64); err == nil {
@@ -32,6 +32,19 @@ func (c *stepCtx) stepLegacy(st map[string]interface{}) string {
 			}
 		}()
 		switch call {
+		case "PretouchObj":
+			// Pretouch with a pointer to an object the caller goes on using: kept as object k (with a snapshot), so that
+			// a later recheck shows whether anything frugal did afterwards touched it
+			ty, holder, iface := c.arg(st)
+			err := frugal.Pretouch(iface)
+			c.objs[k] = holder
+			c.objTy[k] = ty
+			c.snaps[k] = valueDigestNoNocopy(ty, holder)
+			if err != nil {
+				res = `"out":"err",` + errObs(err)
+			} else {
+				res = `"out":"ok","ret":"0","zero":true`
+			}
 		case "Pretouch", "PretouchOpts", "PretouchValue":
 			var vt interface{}
 			if d, ok := defs[str(st, "ty", "")]; ok {
@@ -94,6 +107,15 @@ func (c *stepCtx) stepLegacy(st map[string]interface{}) string {
 // stepAllocs: mallocs performed by 'calls' repetitions of EncodedSize and of EncodeObject on a
 // pointer to the value with a sufficient buffer, after one warm-up call of each.
 func (c *stepCtx) stepAllocs(st map[string]interface{}) string {
+	if boolean(st, "collide") {
+		// two warm types that share a slot of the descriptor table, used alternately (chosen like in par.go)
+		pairs := colPairsMode(1, true)
+		if len(pairs) == 0 {
+			return `"ev":"Skipped","why":"no colliding unused types left"`
+		}
+		st = map[string]interface{}{"op": "allocs", "ty": pairs[0][0], "v": float64(0), "calls": st["calls"],
+			"alt": map[string]interface{}{"ty": pairs[0][1], "v": float64(0)}}
+	}
 	ty, holder, iface := c.arg(st)
 	calls := num(st, "calls", 100)
 	head := fmt.Sprintf(`"ev":"Allocs","ty":%q,"v":%d,"calls":%d,"obs":{`, ty, num(st, "v", 0), calls)
